@@ -303,6 +303,9 @@ def call_method(it, recv: VStr, name: str, args, kwargs):
         P.dropped.add("str.join over a symbolic sequence: opaque result")
         return VStr(P.const("joined", STR), recv.b)
     if name == "replace":
+        c0, c1, c2 = vals.concrete_str(recv), vals.concrete_str(args[0]), vals.concrete_str(args[1])
+        if c0 is not None and c1 is not None and c2 is not None and len(args) == 2:
+            return VStr(z3.StringVal(c0.replace(c1, c2)), recv.b)
         a, b = _s(args[0], recv), _s(args[1], recv)
         return VStr(z3.Replace(recv.t, a, b), recv.b) if False else VStr(uf("str.replace_all", STR, STR, STR, STR)(recv.t, a, b), recv.b)
     if name == "format":
